@@ -16,9 +16,21 @@ CLAIMED = {
     "C09": ("3.9", "Lean 4 theorems: vertex enumeration decides the forall-forall domination of boxes (any cone, scalar/vector slack, boundary included); ellipsoid closed form via support function + exact rational sqrt-inequality procedure; correspondence with confidence_region_is_dominated (equality on dyadic data, borderline band otherwise)",
             "Proof: `Rect.isDominated` (the code's double vertex loop) is proved equivalent, for l <= u and every cone matrix, to the statement over all real points of both boxes; the ellipsoid decision (per-facet closed form decided exactly over Rat by squaring) is proved equivalent to the forall-forall statement for PSD-factor and positive-definite forms; the slack-size guards are modelled. Real code is compared for equality (touching cases generated deliberately) on exact inputs and outside a certified +-1e-6*scale band otherwise.",
             "cvxpy/CLARABEL solutions of the per-facet SOCPs are compared, not verified; IEEE rounding exact only on the dyadic/integer streams."),
+    "C11": ("3.11", "Lean 4 theorems: check_dominates sound for every cone/dimension, complete for every 2-D cone (iff), 3-D counterexample, pessimistic-set exactness; exact model + bit-exact binary64 mirror; certified exact reference (witness/Farkas); correspondence with check_dominates and compute_pessimistic_set",
+            "Proof: the literal model of check_dominates → is_pt_in_extended_polytope → line_seg_pt_intersect_at_dim answers true only if every real point of R1 dominates some real point of R2 (all cones, all dimensions) and, for all 2-D cones (in particular invertible 2x2), whenever that holds; hence the pessimistic set is exactly the active designs no other active design pessimistically dominates. The real code must equal the binary64 mirror on every float input, must be sound w.r.t. a certified exact reference at any margin, and complete for 2x2 cones at margin 1e-6 (found the rounding defect fixed by 2e45ea6).",
+            "Fourier–Motzkin search untrusted (verdicts certified); r64 mirror assumes IEEE round-to-nearest-even for + - * /."),
+    "C12": ("3.12", "Lean 4 theorems: preorder laws of VOPy.dominates/inCone (refl, trans, translation, scaling, antisymmetric iff pointed), orthant, theta-cone angle semantics, 3-D cone geometry, ice-cream rotation orthogonal + facets tangent to the circular cone; correspondence with dominates/is_inside on lattices and constructor matrices at 1e-12",
+            "Proof: the relation is exactly the facet inequalities and a translation/scale-invariant preorder, antisymmetric iff ker W = 0; the closed-form theta-cone contains exactly the directions within theta/2 of the diagonal for every theta in (0,180) and equals the get_2d_w term for theta != 90 (`_partial` exactly at 90, where the real-number reading of tan(pi/2) is singular; covered on the floats); 3-D cones have unit rows with the diagonal strictly inside; every ice-cream facet touches the circular cone along a ray for all K >= 3. Real code compared for equality on dyadic lattices (incl. boundary) and the constructors against the Float value of the same terms.",
+            "Float trigonometry compared at 1e-12, not verified; get_alpha_vec stubbed for large-K constructors in the harness only."),
     "C13": ("3.13", "Lean 4 theorems about the executable Pareto loop (loop invariant, any preorder) + differential correspondence of get_pareto_set(_naive) against the model and its decidable spec relation",
             "Proof: `Pareto.fast` (split-form mirror of get_pareto_set) is proved, for every finite list and every reflexive transitive relation, to return a sublist of the indexed input that is an antichain, covers every input and contains no strictly dominated element. The tie to /repo is a correspondence check: the real routines run on dyadic-lattice sets with integer-row cones (exact float path) and their outputs must satisfy the Lean-evaluated spec relation (R) and, for pointed cones, keep the model's values (F).",
             "Trusts Lean kernel + standard axioms, the hand model's fidelity as validated by the generated cases (exhaustive small lattices in thorough), numpy float ops being exact on the dyadic/integer inputs."),
+    "C14": ("3.14", "Lean 4 theorems: Rect/Ellipsoid update formulas, listed designs updated from their own row of the prediction, others untouched, lower<=upper invariant over all update sequences, intersection rule as sets; correspondence with both design-space classes x stub/empirical/GP models, every op sequence replayed in the model",
+            "Proof: after update each listed design's rectangle is mean ∓ s·std (std² = cov_jj) / its ellipsoid is (mean, cov, s), unlisted designs are untouched (also under exceptions), lower <= upper is invariant for all sequences with scale >= 0, and iterative intersection yields the set intersection when interiors meet and the new rectangle otherwise (touching = disjoint, as the code). Real updates are compared against row i of predict on the FULL design matrix, exactly on the dyadic lattice and at 1e-12/1e-9 otherwise, with the single-design subset as an explicit shape (found D3, fixed by 741d2c1).",
+            "sqrt enters as an input std checked against cov at 1e-12; GP wrappers' numerics compared not verified."),
+    "C16": ("3.16", "Lean 4 theorems about the empirical model's op-sequence state machine (mean/population variance of all samples since the last clear as of the last update; List.Perm / re-batching invariance; rejection leaves state unchanged) + whole-history replay correspondence with EmpiricalMeanVarModel",
+            "Proof: for every add/update/clear history the model's prediction is the arithmetic mean and (>= 2 samples) population variance, else noise·I, of exactly the samples added for that design; invariant under any permutation/re-batching/interleaving; zero mean for unsampled designs; zeros/identity when untracked; out-of-range or mismatched adds are rejected without effect. Real histories (lists, sets, arrays, repeated indices, toggled flags) are replayed in the model with dyadic values (sums exact) and compared.",
+            "np.mean/np.var compared at 1e-12 when the count is not a power of two; quirks outside the property (negative indices, empty adds) are modelled and counted only."),
     "C19": ("3.19", "Lean 4 theorems: smallM is the geometric gap (given attained alpha), delta=0 iff no interior dominator, KKT/Farkas certificate soundness for eps-coverage, F1 laws (range, =1, permutation, monotone in eps), hypervolume monotonicity; correspondence with get_smallmij/get_delta/is_covered/get_uncovered_*/calculate_epsilonF1_score/botorch hypervolume",
             "Proof: the gap formula equals the largest admissible shift along all unit cone directions; eps-coverage verdicts are certified by checkers with soundness theorems; the F1 formula's laws are theorems about the modelled arithmetic. The real utilities are compared exactly on dyadic/integer inputs, is_covered outside the numerical band (1e-6 decided exactly; within 1e-3 relative the conic solver's tolerance governs), F1 exactly as a rational when robust.",
             "The active-set search is untrusted (every verdict certified); cvxpy solutions compared not verified; hypervolume theorem is about the mathematical hypervolume, botorch compared."),
